@@ -32,6 +32,7 @@ PROFILES = [
     ("media+src", {"media_dir": "/proj/media", "incl_src": True}),
     ("missing-media+pages", {"media_dir": "/proj/nomedia", "pages": True}),
     ("css+mathjax", {"css": "/proj/user.css", "mathjax_config": "/proj/conf/mj.js"}),
+    ("pages+absolute copy_subdir", {"pages": True, "abs_copy": True}),
 ]
 STALE = [
     ("absent", {}),
@@ -102,7 +103,9 @@ def _documentation(out, profile, warnings):
     tree = []
     if opts.get("pages"):
         node = lambda path, loc, stem, copy, files: S.Rec(path=VPath(path), location=VPath(loc), filename=VPath(stem), copy_subdir=copy, files=files)
-        tree = [page(out.PagetreePage, obj=node("index.html", ".", "index", ["generated", "images", "data"], ["notes.txt", "gone.txt"])),
+        # project-level copy_subdir entries are normalised to absolute paths below the project directory (ProjectSettings.normalise_paths)
+        extra_copy = ["/proj/pages/images"] if opts.get("abs_copy") else []
+        tree = [page(out.PagetreePage, obj=node("index.html", ".", "index", ["generated", "images", "data"] + extra_copy, ["notes.txt", "gone.txt"])),
                 page(out.PagetreePage, obj=node("guide/index.html", "guide", "index", [], ["fig.png"]))]
     d = object.__new__(out.Documentation)
     d.data = data
